@@ -52,4 +52,11 @@ theorem u64_core_refused (b s d off : BitVec 64) (w : BitVec 64)
   · bv_decide (config := { timeout := 300 })
   simp at h
 
+/-! ### `Nat` range hypotheses as bit-vector comparisons -/
+theorem bv_le (a c : Nat) (h : a ≤ c) (hc : c < 2 ^ 64) : BitVec.ofNat 64 a ≤ BitVec.ofNat 64 c := by
+  rw [BitVec.le_def]; simp only [BitVec.toNat_ofNat]; omega
+theorem bv_add_le (a b c : Nat) (h : a + b ≤ c) (hc : c < 2 ^ 64) :
+    BitVec.ofNat 64 a + BitVec.ofNat 64 b ≤ BitVec.ofNat 64 c := by
+  rw [BitVec.le_def]; simp only [BitVec.toNat_ofNat, BitVec.toNat_add]; omega
+
 end AsmjitVerif.Offset
